@@ -1328,6 +1328,40 @@ impl XmlDocument {
     }
 }
 
+/// Merges every run of text items among `children` of `parent` into the first item of the run,
+/// drops empty text items and does the same below every element.
+fn normalize_text<T: InfoHasChildren>(parent: &T, children: Vec<Rc<info::XmlItem>>) {
+    let mut previous: Option<info::XmlNode<info::XmlText>> = None;
+
+    for child in children {
+        match &*child {
+            info::XmlItem::Text(text) => {
+                let data = text.borrow().character_code().to_string();
+                let merged = match previous.as_ref() {
+                    _ if data.is_empty() => true,
+                    Some(p) => {
+                        let len = p.borrow().len();
+                        // Text that cannot be written as one piece stays in two.
+                        p.borrow_mut().replace(len, 0, data.as_str()).is_ok()
+                    }
+                    None => false,
+                };
+
+                if merged {
+                    parent.delete(child.id());
+                } else {
+                    previous = Some(text.clone());
+                }
+            }
+            info::XmlItem::Element(element) => {
+                XmlElement::from(element.clone()).normalize();
+                previous = None;
+            }
+            _ => previous = None,
+        }
+    }
+}
+
 /// Whether both are one and the same document. Two documents that were read from the same text
 /// are equal, but a node of one does not belong to the other.
 fn same_document(a: Option<XmlDocument>, b: Option<XmlDocument>) -> bool {
@@ -1813,7 +1847,14 @@ impl ElementMut for XmlElement {
     }
 
     fn normalize(&self) {
-        todo!()
+        for attr in self.element.borrow().attributes().iter() {
+            let values = XmlAttr::from(attr.clone()).children();
+            let values = values.into_iter().filter_map(|v| v.try_into().ok());
+            normalize_text(&*attr.borrow(), values.collect());
+        }
+
+        let children = self.element.borrow().children();
+        normalize_text(&*self.element.borrow(), children.iter().collect());
     }
 }
 
